@@ -663,6 +663,14 @@ fn observe(w: &World, case: &str, st: &mut Stats) {
                         if stext != e.to_str() {
                             fail(st, "serialize", case, "serialize_internal of an enum item is not its table text");
                         }
+                    } else if let CharacterData::String(sv) = &v {
+                        // the escaped text, read back the way every xml reader does (the five predefined entities,
+                        // &amp; last), must be the string again; and it must not contain a bare markup character
+                        let back = stext.replace("&lt;", "<").replace("&gt;", ">").replace("&quot;", "\"").replace("&apos;", "'").replace("&amp;", "&");
+                        st.class(if sv.contains('&') { "format:string-with-ampersand" } else { "format:string-plain" });
+                        if back != *sv || stext.contains('<') {
+                            fail(st, "serialize-roundtrip", case, &format!("serialize_internal = {:?}, unescaped back to {:?}", stext, back));
+                        }
                     }
                 }
             }
@@ -807,8 +815,65 @@ fn observe(w: &World, case: &str, st: &mut Stats) {
                 fail(st, "format-parse", case, &format!("to_string = {:?}, parsed back as {:?}", text, back.as_ref().map(value_s)));
             }
         }
+        "XS" => {
+            // the string as element character data and as an attribute value, written by ArxmlFile::serialize and read back
+            // by AutosarModel::load_buffer (no model side: the observation is decided by the oracle alone)
+            let sv = match String::from_utf8(unhex(f.get(1).unwrap_or(&""))) {
+                Ok(t) => t,
+                Err(_) => {
+                    println!("{} => NOT-UTF8", case);
+                    return;
+                }
+            };
+            let r = g(|| xml_string_roundtrip(&sv));
+            match r {
+                Ok(Ok((elem, attr))) => {
+                    println!("{} => NOMODEL elem={} attr={}", case, elem.as_ref().map(|t| hex(t.as_bytes())).unwrap_or("-".into()), attr.as_ref().map(|t| hex(t.as_bytes())).unwrap_or("-".into()));
+                    // the loader trims element text and attribute values of a non-preserving string type (C01's domain): compare
+                    // modulo edge white space for such values
+                    let edge = sv != sv.trim();
+                    st.class(if edge { "xmlstring:edge-whitespace" } else if sv.contains('&') { "xmlstring:with-ampersand" } else { "xmlstring:other" });
+                    if elem.as_deref().map(|t| t.trim()) != Some(sv.trim()) || (!edge && elem.as_deref() != Some(sv.as_str())) {
+                        fail(st, "xml-string-roundtrip", case, &format!("element text {:?} came back from serialize + load as {:?}", sv, elem));
+                    }
+                    if attr.as_deref().map(|t| t.trim()) != Some(sv.trim()) || (!edge && attr.as_deref() != Some(sv.as_str())) {
+                        fail(st, "xml-string-roundtrip", case, &format!("attribute value {:?} came back from serialize + load as {:?}", sv, attr));
+                    }
+                }
+                Ok(Err(e)) => println!("{} => NOMODEL SETUP-ERROR {}", case, e),
+                Err(_) => println!("{} => NOMODEL PANIC", case),
+            }
+        }
         _ => println!("{} => UNKNOWN-CASE", case),
     }
+}
+
+/// AR-PACKAGE p with UUID = s and LONG-NAME/L-4 text = s; serialize the file, load the text into a fresh model, read both back
+fn xml_string_roundtrip(s: &str) -> Result<(Option<String>, Option<String>), String> {
+    use autosar_data::{AutosarModel, ElementName};
+    let e = |x: autosar_data::AutosarDataError| format!("{:?}", x);
+    let m = AutosarModel::new();
+    let file = m.create_file("a.arxml", AutosarVersion::LATEST).map_err(e)?;
+    let pkgs = m.root_element().create_sub_element(ElementName::ArPackages).map_err(e)?;
+    let pkg = pkgs.create_named_sub_element(ElementName::ArPackage, "p").map_err(e)?;
+    pkg.set_attribute(AttributeName::Uuid, CharacterData::String(s.to_string())).map_err(e)?;
+    let l4 = pkg.create_sub_element(ElementName::LongName).map_err(e)?.create_sub_element(ElementName::L4).map_err(e)?;
+    l4.insert_character_content_item(s, 0).map_err(e)?;
+    let text = file.serialize().map_err(e)?;
+    let m2 = AutosarModel::new();
+    m2.load_buffer(text.as_bytes(), "b.arxml", false).map_err(e)?;
+    let pkg2 = m2.get_element_by_path("/p").ok_or("package not found after load")?;
+    let attr = pkg2.attribute_value(AttributeName::Uuid).and_then(|c| c.string_value());
+    let l42 = pkg2.get_sub_element(ElementName::LongName).and_then(|x| x.get_sub_element(ElementName::L4)).ok_or("L-4 not found after load")?;
+    let elem = match l42.content_item_count() {
+        0 => Some(String::new()),
+        1 => l42.content().next().and_then(|c| match c {
+            autosar_data::ElementContent::CharacterData(cd) => cd.string_value(),
+            _ => None,
+        }),
+        _ => None,
+    };
+    Ok((elem, attr))
 }
 
 // ------------------------------------------------------------------------------------------ generator
@@ -1227,12 +1292,16 @@ fn gen(w: &World, seed: u64, thorough: bool) -> Vec<String> {
     let strings: Vec<String> = vec![
         "", "a", "plain text", "a<b", "a>b", "a&b", "a'b", "a\"b", "<>&'\"", "&amp;", "&lt;x&gt;", " lead", "trail ", "tab\there", "line\nbreak", "caf\u{e9}", "\u{1F600}",
         "\u{ff11}\u{ff12}", "]]>", "<![CDATA[x]]>", "&#38;", "a&&b<<", "'", "\"", "0", "true",
+        // entity-shaped text and near misses: an '&' is escaped whatever follows it
+        "&lt;", "&gt;", "&quot;", "&apos;", "a&amp;b", "&amp;amp;", "&amp;lt;", "x&quot;y&apos;z", "&lt;&gt;", "&lt", "&amp", "&ampx;", "&LT;", "&Amp;", "& lt;", "&l t;",
+        "&#60;", "&#x26;", "&;", "&", "&&amp;", "&amp;&", "&amp;&amp;", "&&", "&ltx", "&apos", "&quot;&", "&gt;=", "R&amp;D", "AT&amp;T &lt;tm&gt;",
     ]
     .into_iter()
     .map(String::from)
     .collect();
     for s in strings.iter() {
         cases.push(format!("TS S:{}", hex(s.as_bytes())));
+        cases.push(format!("XS {}", hex(s.as_bytes())));
     }
     // ---- parse / check_value / round trip with the real specs
     let versions: Vec<u32> = (0..32).map(|i| 1u32 << i).filter(|b| AutosarVersion::from_val(*b).is_some()).collect();
